@@ -135,6 +135,7 @@ type Contracts struct {
 	sinks      []*SinkSpec
 	frames     []*FrameSpec
 	orders     []*OrderSpec
+	boundeds   []*BoundedSpec
 	files  []string
 }
 
@@ -232,6 +233,13 @@ func (cs *Contracts) loadFile(path string, pkgName string, commentPrefix bool) e
 				return perr(err)
 			}
 			cs.frames = append(cs.frames, sp)
+			cur = nil
+		case "bounded":
+			sp, err := parseBoundedSpec(rest, props, where)
+			if err != nil {
+				return perr(err)
+			}
+			cs.boundeds = append(cs.boundeds, sp)
 			cur = nil
 		case "ordered":
 			sp, err := parseOrderSpec(rest, props, where)
